@@ -46,6 +46,9 @@ type script struct {
 	// middle of a response whose head has arrived) - after C14-s13
 	BodyFail *int   `json:"body_fail,omitempty"`
 	BodyErr  string `json:"body_err,omitempty"` // unexpected-eof | reset
+	// NoLength: the response announces no length (chunked or close-delimited: net/http reports ContentLength -1) -
+	// after C14-s14
+	NoLength bool `json:"no_length,omitempty"`
 }
 
 type brokenBody struct {
@@ -78,16 +81,20 @@ func (f *fake) Do(req *http.Request) (*http.Response, error) {
 		h.Add(kv[0], kv[1])
 	}
 	b := []byte(f.s.Body)
+	cl := int64(len(b))
+	if f.s.NoLength {
+		cl = -1
+	}
 	if k := f.s.BodyFail; k != nil && *k < len(b) {
 		err := io.ErrUnexpectedEOF
 		if f.s.BodyErr == "reset" {
 			err = fmt.Errorf("read tcp 192.0.2.1:443: connection reset by peer")
 		}
 		return &http.Response{StatusCode: f.s.Status, Status: fmt.Sprintf("%d %s", f.s.Status, http.StatusText(f.s.Status)), Proto: "HTTP/1.1", ProtoMajor: 1, ProtoMinor: 1,
-			Header: h, Body: &brokenBody{data: b[:*k], err: err}, ContentLength: int64(len(b)), Request: req}, nil
+			Header: h, Body: &brokenBody{data: b[:*k], err: err}, ContentLength: cl, Request: req}, nil
 	}
 	return &http.Response{StatusCode: f.s.Status, Status: fmt.Sprintf("%d %s", f.s.Status, http.StatusText(f.s.Status)), Proto: "HTTP/1.1", ProtoMajor: 1, ProtoMinor: 1,
-		Header: h, Body: io.NopCloser(bytes.NewReader(b)), ContentLength: int64(len(b)), Request: req}, nil
+		Header: h, Body: io.NopCloser(bytes.NewReader(b)), ContentLength: cl, Request: req}, nil
 }
 
 // ---------------------------------------------------------------------------
@@ -926,6 +933,9 @@ func TestStatusMatrix(t *testing.T) {
 					c.ErrPad = []int{0, 2000, 100000}[(code/3)%3]
 				}
 				run(t, nil, c, fmt.Sprintf("matrix/%dxx", code/100))
+				c.Script.NoLength = true
+				run(t, nil, c, fmt.Sprintf("matrix-no-length/%dxx", code/100))
+				c.Script.NoLength = false
 				if k > 0 {
 					// the same response breaking off at the very start, and after a few bytes, of its body
 					for j, cut := range []int{0, 7} {
@@ -1007,6 +1017,7 @@ func TestDocuments(t *testing.T) {
 		if rapid.IntRange(0, 9).Draw(rt, "otherstatus") == 0 {
 			c.Script.Status = rapid.SampledFrom([]int{200, 201, 204, 206, 404, 500}).Draw(rt, "st")
 		}
+		c.Script.NoLength = rapid.IntRange(0, 3).Draw(rt, "nolength") == 0
 		if rapid.IntRange(0, 6).Draw(rt, "breaks") == 0 {
 			k := rapid.IntRange(0, len(c.Doc.render())).Draw(rt, "breaks-at")
 			c.Script.BodyFail, c.Script.BodyErr = &k, rapid.SampledFrom([]string{"unexpected-eof", "reset"}).Draw(rt, "breaks-how")
@@ -1040,6 +1051,7 @@ func TestArbitraryResponses(t *testing.T) {
 			c.ErrDoc = rapid.SliceOfN(rapid.SampledFrom([]string{vdav.NSCal + " no-uid-conflict", vdav.NSCard + " valid-address-data", vdav.NSDAV + " lock-token-submitted", "urn:x custom"}), 1, 3).Draw(rt, "conds")
 			c.ErrPad = rapid.SampledFrom([]int{0, 0, 0, 900, 1100, 5000, 70000}).Draw(rt, "errpad")
 		}
+		c.Script.NoLength = rapid.IntRange(0, 3).Draw(rt, "nolength") == 0
 		if rapid.IntRange(0, 4).Draw(rt, "breaks") == 0 {
 			k := rapid.SampledFrom([]int{0, 1, 10, 100, 500, 1023, 1024, 1025, 5000}).Draw(rt, "breaks-at")
 			c.Script.BodyFail, c.Script.BodyErr = &k, rapid.SampledFrom([]string{"unexpected-eof", "reset"}).Draw(rt, "breaks-how")
